@@ -481,7 +481,7 @@ async fn mode_c06(args: &Args, sum: &mut Summary) {
     let mut w = CaseWriter::new(&args.out, "cases_c06", HEADER, "c06_case", "check_c06", "prop_c06", 2);
     let mut wbig = CaseWriter::new(&args.out, "cases_c06_rot", HEADER, "c06_case", "check_c06", "prop_c06", 1);
     let thorough = args.thorough();
-    let nsmall = if thorough { 260 } else { 30 };
+    let nsmall = if thorough { 120 } else { 30 };
     let nbig = if thorough { 6 } else { 1 };
     let mut id = 0u64;
     let mut seen = std::collections::HashSet::new();
@@ -505,7 +505,7 @@ async fn mode_c06(args: &Args, sum: &mut Summary) {
                     rec: Box::new(move |i, nw| i < 2 || (nw % 1000 >= 998 || nw % 1000 <= 1) || i >= n), next_pick: Some(|p| p.len() - 1) }
             } else {
                 let n = r.range(1, 14) as usize;
-                let all_trunc = thorough && r.chance(1, 3);
+                let all_trunc = thorough && r.chance(1, 5);
                 let ck = r.below(4);
                 Plan { nops: n, nkeys: r.range(2, 6), trunc: true, all_trunc,
                     kinds: Box::new(move |rng, _| match rng.below(16) { 0..=7 => rng.below(6), 8..=10 => 6, 11..=12 => 8, 13 => 9, _ => if ck > 0 { 10 } else { 0 } }),
